@@ -37,7 +37,7 @@ class P(Property):
     harness_bin = 'c07'
     rule = ('sf: the real h3 server or client over SimQuic with a scripted peer; 1..4 concurrent requests, each its own '
             'application task, bodies of distinct bytes cut into DATA frames and chunks; a seeded subset gets ONE fault '
-            '(RESET with a seeded code at every kind of byte offset: frame boundary, inside the HEADERS frame, inside a DATA '
+            '(RESET with a code from the whole code table / boundaries / random < 2^62, or a transport-specific failure of the receive half, at every kind of byte offset: frame boundary, inside the HEADERS frame, inside a DATA '
             'header, inside a payload; STOP_SENDING at a seeded point; three malformed but validly QPACK-encoded sections; a '
             'section over the configured limit; FIN before HEADERS; and, after a complete body, a malformed trailer '
             'section (uppercase / non-token name, NUL in a value, undefined pseudo-header) or an oversized one - the '
@@ -84,7 +84,7 @@ class P(Property):
         out = list(evs)
         # h3 reads one transport event ahead; with a RESET queued behind, how many bytes were handed out before it depends
         # on where the chunks are cut (the model knows chunk = event), so only the first frame is cut in such scripts
-        healthy = not any(e[0] == 'R' for e in evs)
+        healthy = not any(e[0] in 'RK' for e in evs)
         # which events complete a DATA payload (with at least one byte in this event)
         completes, owed = set(), 0
         for k, e in enumerate(out):
@@ -139,13 +139,14 @@ class P(Property):
                 x = rng.randrange(len(pl))
                 if x > 0:
                     out.append('m' + hx(pl[:x]))
-        out.append('R%d' % code)
+        out.append('K' if rng.random() < 0.2 else 'R%d' % code)
         return out
 
-    def one_case(self, rng, tier):
+    def one_case(self, rng, tier, ext=False):
         role = rng.choice(['s', 'c'])
         n = rng.choice([1, 2, 2, 3, 3, 4, 4])
         reqs, nev, stops, zs = [], [], [], []
+        modes = [rng.choice('nes') if ext else 'n' for _ in range(n)]
         for i in range(n):
             evs, _ = self.healthy_events(rng, i)
             kind = rng.choice(['ok', 'ok', 'ok', 'reset', 'reset', 'stop', 'malformed', 'oversized', 'finfirst', 'conn',
@@ -168,9 +169,9 @@ class P(Property):
                 if r < 0.8:
                     evs.append('F')
                 elif r < 0.9:
-                    evs.append('R%d' % any_code(rng))
+                    evs.append(rng.choice(['K', 'R%d' % any_code(rng)]))
                 else:
-                    evs += ['tp%d' % rng.randint(1, 5), 'R7']
+                    evs += ['tp%d' % rng.randint(1, 5), rng.choice(['R7', 'K'])]
             elif kind == 'finfirst':
                 evs = ['F'] if role == 's' or rng.random() < 0.5 else evs
             elif kind == 'conn':
@@ -181,12 +182,14 @@ class P(Property):
                                       ['h', 'tq', 'F'], ['h', 't', 'd1:aa', 'F'], ['h', 't', 't', 'F'], ['h', 'tp2', 'F']])
                     if not evs:
                         evs = ['F']
+            if evs[0].startswith('tk'):
+                evs[0] = 't'      # as a FIRST frame tk0 is a (tolerated) response on the client: keep the token unambiguous
             evs = self.decorate(rng, evs)
             pad = rng.choice([0, 0, 0, 0, 1, 7, 30])
             z = (H_SRV_RESP if role == 's' else H_CLI_REQ) + ((3 + pad + 32) if pad else 0)
             body = [((i + 9) << 4 | k) & 0xff for k in range(rng.choice([0, 1, 2, 5]))]
             tz = '-' if rng.random() < 0.7 else str(rng.choice([35, 36, 40, 60, 135]))
-            reqs.append('%s;%s;%d;%d;%s;%s' % ('.'.join(evs), stop, pad, z, hx(body), tz))
+            reqs.append('%s;%s;%d;%d;%s;%s' % ('.'.join(evs), stop, pad, z, hx(body), tz) + (';' + modes[i] if ext else ''))
             nev.append(len(evs))
             zs.append(z)
             stops.append(stop != '-')
@@ -197,6 +200,10 @@ class P(Property):
                 acts.append('o%d' % i)
             acts += ['e%d' % i] * nev[i]
             acts += ['p%d' % i] * rng.randint(1, nev[i] + 5)
+            if modes[i] == 's':
+                acts += ['q%d' % i] * rng.randint(1, 6)
+            if ext:
+                acts += ['w%d:%d' % (i, rng.choice([1, 2, 3, 5, 8, 20, 60])) for _ in range(rng.randint(0, 6))]
             if stops[i]:
                 acts.append('s%d' % i)
         acts += ['pd'] * rng.randint(0, 3)
@@ -219,16 +226,24 @@ class P(Property):
             if g == 'gG':
                 pos = rng.randint(acts.index(glob[0]) + 1, len(acts))
             acts.insert(pos, g)
-        if rng.random() < 0.85:
+        if ext:
+            # always completed: everything arrives, the transport takes everything, every task is polled
+            for i in range(n):
+                acts += ['e%d' % i] * nev[i] + ['w%d:100000' % i] + ['p%d' % i, 'q%d' % i] * 8
+        elif rng.random() < 0.85:
             for i in range(n):
                 acts += ['e%d' % i] * nev[i] + ['p%d' % i] * 6
         acts.append('pd')
         # which request carries the connection's one grease frame (h3's default configuration has grease ON):
         # server: the first accepted stream; client: the first request whose send_request succeeds
         holder = '-'
-        if rng.random() < 0.5:
+        if rng.random() < 0.5 and not (ext and role == 'c'):
+            # (sfx client tasks use SendRequest clones, each with its own grease flag: grease stays off there)
             holder = self.grease_holder(role, n, zs, acts)
         unk = 1 if rng.random() < 0.3 else 0
+        if ext:
+            budget = rng.choice(['-', '-', '0', '1', '3', '7', '12', '40'])
+            return 'sfx %s cfg=g%s,u%d,b%s r=%s sched=%s' % (role, holder, unk, budget, '/'.join(reqs), ','.join(acts))
         return 'sf %s cfg=g%s,u%d r=%s sched=%s' % (role, holder, unk, '/'.join(reqs), ','.join(acts))
 
     @staticmethod
@@ -245,6 +260,8 @@ class P(Property):
             elif a.startswith('gS'):
                 if limit is None:
                     limit = int(a[2:])
+            elif a[0] in 'wq':
+                continue
             elif a[0] == 's':
                 stopped.add(int(a[1:]))
             elif a[0] == 'p' and a != 'pd':
@@ -259,7 +276,10 @@ class P(Property):
 
     def cases(self, tier, rng):
         k = 4000 if tier == 'quick' else 120000
-        return [self.one_case(rng, tier) for _ in range(k)]
+        out = [self.one_case(rng, tier) for _ in range(k)]
+        # other application patterns (early response, split()) and write back-pressure: implementation vs specification only
+        out += [self.one_case(rng, tier, ext=True) for _ in range(k // 2)]
+        return out
 
     # ------------------------------------------------------------------ judging
     @staticmethod
@@ -308,7 +328,7 @@ class P(Property):
         opened = [w[1] == 'c'] * len(reqs)
         polls = [0] * len(reqs)
         for a in acts:
-            if a[0] in 'oesp' and a != 'pd':
+            if a[0] in 'oesp' and a != 'pd' and ':' not in a:
                 i = int(a[1:])
                 if a[0] == 'o':
                     opened[i] = True
@@ -318,8 +338,70 @@ class P(Property):
                     polls[i] += 1
         return {i for i in range(len(reqs)) if polls[i] >= 6}
 
+    def canon(self, case, out):
+        # family sfx has no model column: only the specification judges the implementation
+        return 'sfx' if case.startswith('sfx ') else out
+
+    @staticmethod
+    def sat_x(o, allows, strict=True):
+        """family sfx: every half of the request is ok or shows one of the allowed stream-level errors; nothing may still run"""
+        al = [a.split(':') for a in allows]
+        oks = [a for a in al if a[0] == 'ok']
+        errs = [a for a in al if a[0] == 'err']
+        data = '' if o['d'] == '-' else o['d']
+        halves = o['res'].split('&')
+        if 'run' in halves:
+            return not strict
+        aborts = '.'.join(c for c in o['c'].split('.') if c not in ('F', '-')) or '-'
+        want_aborts = '-'
+        for k, h in enumerate(halves):
+            if h == '-':
+                continue                      # the send half was never created
+            if h == 'ok':
+                if k == 0 and not oks:
+                    return False              # the receiving side must see the fault
+                continue
+            r = h.split(':')
+            if r[0] != 'err' or len(r) != 5 or r[2] != 's':
+                return False
+            m = [a for a in errs if a[1] == r[4] and a[2] == r[3] and ('' if a[4] == '-' else a[4]).startswith(data)]
+            if not m:
+                return False
+            if any(a[3] != '-' for a in m) and want_aborts == '-':
+                want_aborts = [a[3] for a in m if a[3] != '-'][0] if all(a[3] != '-' for a in m) else want_aborts
+                if want_aborts == '-' and aborts != '-':
+                    want_aborts = aborts if aborts in [a[3] for a in m] else want_aborts
+        if aborts != want_aborts:
+            return False
+        if all(h == 'ok' for h in halves):
+            a = oks[0]
+            return o['d'] == a[1] and o['t'] == a[2] and o['c'] == 'F' and o['tr'] == a[3]
+        if halves[0] == 'ok' and oks:
+            a = oks[0]
+            if o['d'] != a[1] or o['tr'] != a[3]:
+                return False
+        return True
+
     def spec_ok(self, case, out, spec):
-        if spec is None:
+        if spec is None or out == '-':
+            return True
+        if case.startswith('sfx '):
+            ow, sw = out.split(), spec.split()
+            if len(ow) != len(sw) or not ow or ow[0] != 'ok':
+                return False
+            strict = sw[-2:] == ['conn=ok;close=-', 'solo=same']   # a connection-level fault elsewhere may starve a request
+            for o, s_ in zip(ow[1:], sw[1:]):
+                if '~' in s_:
+                    name, allows = s_.split('~', 1)
+                    if not o.startswith(name + '='):
+                        return False
+                    if allows != '*' and not self.sat_x(self.parse_req(o[len(name) + 1:]), allows.split('|'), strict):
+                        return False
+                elif s_.endswith('=*'):
+                    if not o.startswith(s_[:-1]):
+                        return False
+                elif o != s_:
+                    return False
             return True
         ow, sw = out.split(), spec.split()
         done = self.must_be_finished(case) if sw[-2:] == ['conn=ok;close=-', 'solo=same'] else set()
@@ -357,7 +439,7 @@ class P(Property):
         w = case.split()
         if len(w) < 3:
             return 'sf'
-        return 'sf.%s.n%d' % (w[1], w[3].count('/') + 1)
+        return '%s.%s.n%d' % (w[0], w[1], w[3].count('/') + 1)
 
     def shrink_candidates(self, case):
         w = case.split()
